@@ -252,6 +252,13 @@ class Interp:
     def new_binder(self, dom, hint):
         return ('bvar', next(self.ids), hint, dom)
 
+    def is_function_value(self, t):
+        if t[0] in ('lambda', 'closure'):
+            return True
+        if t[0] == 'attr' and t[1][0] == 'obj':
+            return t[2] in self.repo.classes.get(t[1][1], {})
+        return False
+
     def lookup(self, name, fr):
         if name in fr.env:
             v = fr.env[name]
@@ -443,6 +450,11 @@ class Interp:
             for op, c in zip(n.ops, n.comparators):
                 right = self.ex(c, fr)
                 opn = type(op).__name__
+                if opn in ('Is', 'IsNot', 'Eq', 'NotEq') and NONE in (left, right) and self.is_function_value(right if left == NONE else left):
+                    # a function value (lambda, nested def, bound method of a repository class) is an object, never None
+                    parts.append(FALSE if opn in ('Is', 'Eq') else TRUE)
+                    left = right
+                    continue
                 if left[0] == 'const' and right[0] != 'const' and opn in CMP_FLIP:
                     parts.append(CMP(CMP_FLIP[opn], right, left))       # canonical orientation: the literal on the right
                 else:
